@@ -26,7 +26,7 @@ package scripting
 //verif:stub github.com/tucats/ego/internal/i18n.T = c17T
 //verif:stub github.com/tucats/ego/internal/cli/settings.GetInt = c17GetInt
 //verif:stub github.com/tucats/ego/internal/caches.Purge = c17Purge
-//verif:bound a @transaction request of 1 (quick) / 2 (thorough) tasks, each with an arbitrary one of the eight opcodes and 0 or 1 error condition; every operation has an arbitrary outcome (row count, status, error); condition parsing and evaluation each succeed, fail, or yield true/false arbitrarily; opening the database, BEGIN and COMMIT each succeed or fail arbitrarily
+//verif:bound a @transaction request of 1 (quick) / 2 (thorough) tasks, each with an arbitrary one of the eight opcodes (or the sql shorthand without an operation name) and 0 or 1 error condition; every operation has an arbitrary outcome (row count, status, error); condition parsing and evaluation each succeed, fail, or yield true/false arbitrarily; opening the database, BEGIN and COMMIT each succeed or fail arbitrarily
 //verif:assume the per-operation functions (doInsert ... doSQL) and the database are replaced by arbitrary outcomes; COMMIT and ROLLBACK of the underlying engine are atomic, and a failed COMMIT leaves no transaction open
 //verif:outside the SQL the operations generate (C14, C15); result-set payload contents
 
@@ -63,6 +63,7 @@ var (
 	c17CondBad   bool
 	c17EvalBad   bool
 	c17EvalTrue  bool
+	c17Ran       []string // which operation function ran, in order
 )
 
 func c17Decode(dec *json.Decoder, v any) error {
@@ -111,17 +112,21 @@ func c17Outcome() (int, int, error) {
 	return count, http.StatusOK, nil
 }
 func c17DoCount(id int, user string, db *database.Database, task defs.TXOperation, n int, s *symbolTable) (int, int, error) {
+	c17Ran = append(c17Ran, "table")
 	return c17Outcome()
 }
 func c17DoInsert(id int, user string, db *database.Database, task defs.TXOperation, n int, s *symbolTable) (int, error) {
+	c17Ran = append(c17Ran, "table")
 	_, st, err := c17Outcome()
 	return st, err
 }
 func c17DoSQL(id int, db *database.Database, task defs.TXOperation, n int, s *symbolTable) (int, int, bool, error) {
+	c17Ran = append(c17Ran, "sql")
 	c, st, err := c17Outcome()
 	return c, st, sym.Bool("cacheFlush"), err
 }
 func c17DoSymbols(id int, task defs.TXOperation, n int, s *symbolTable) (int, error) {
+	c17Ran = append(c17Ran, "symbols")
 	_, st, err := c17Outcome()
 	return st, err
 }
@@ -164,17 +169,31 @@ func VerifC17_allOrNothing() {
 		n = 2
 	}
 	sym.Bound("tasks", n)
-	ops := []string{insertOpcode, updateOpcode, deleteOpcode, selectOpcode, rowsOpcode, sqlOpcode, dropOpCode, symbolsOpcode}
+	// the ninth form is the documented shorthand: no operation name, just sql text
+	ops := []string{insertOpcode, updateOpcode, deleteOpcode, selectOpcode, rowsOpcode, sqlOpcode, dropOpCode, symbolsOpcode, ""}
 	c17Tasks = nil
+	var want []string
 	for i := 0; i < n; i++ {
 		t := defs.TXOperation{Opcode: ops[sym.Choice("opcode", len(ops))], Table: "t"}
+		switch t.Opcode {
+		case sqlOpcode:
+			t.SQL = "delete from t"
+			want = append(want, "sql")
+		case "":
+			t.SQL, t.Table = "delete from t", ""
+			want = append(want, "sql")
+		case symbolsOpcode:
+			want = append(want, "symbols")
+		default:
+			want = append(want, "table")
+		}
 		if sym.Bool("hasCondition") {
 			t.Errors = []defs.TXError{{Condition: "_rows_ == 0"}}
 		}
 		c17Tasks = append(c17Tasks, t)
 	}
 	c17CondBad, c17EvalBad, c17EvalTrue = sym.Bool("conditionUnparsable"), sym.Bool("conditionFailsToEvaluate"), sym.Bool("conditionTrue")
-	c17TxState, c17Closed, c17Success, c17Errors = c17None, 0, 0, 0
+	c17TxState, c17Closed, c17Success, c17Errors, c17Ran = c17None, 0, 0, 0, nil
 	sym.Known("C17-bad-condition-leaves-transaction-open", c17EvalBad)
 	s := &router.Session{ID: 1, User: "u", Language: "en", URLParts: map[string]any{"dsn": "d"}}
 	status := Handler(s, &c17Writer{hdr: http.Header{}}, &http.Request{Header: http.Header{}})
@@ -182,6 +201,11 @@ func VerifC17_allOrNothing() {
 	sym.Assert(c17Success+c17Errors == 1, "the request was answered with neither exactly one success payload nor exactly one error response")
 	if c17Success == 1 {
 		sym.Assert(c17TxState == c17Committed && status == http.StatusOK, "success was reported although the transaction was not committed")
+		applied := len(c17Ran) == len(want)
+		for i := 0; applied && i < len(want); i++ {
+			applied = c17Ran[i] == want[i]
+		}
+		sym.Assert(applied, "success was reported although not every operation of the request was applied, once and in order")
 	} else {
 		sym.Assert(c17TxState != c17Committed, "failure was reported although the transaction was committed")
 	}
